@@ -179,6 +179,48 @@ func run(w *world, v *vec, o *out) {
 				}
 			}
 			w.rpc(c, "Tclunk", wirecodec.Values{"fid": newfid})
+		case "Tsetattr":
+			// bit sets and scalars: every flag and value the backend is given is the frame's own (a flag that is only
+			// assigned under a condition keeps what an earlier message left in the recycled object)
+			bits := [][]string{0: {}, 1: {"size"}, 2: {"atime", "mtime"}, 3: {"mode", "uid", "gid", "size", "atime", "mtime", "ctime", "atime_set", "mtime_set"}}[n]
+			q := uint64(w.seq)
+			attr := wirecodec.Values{"mode": q % 0o777, "uid": 1000 + q, "gid": 2000 + q, "size": 3 * q, "atime_sec": 10 + q, "atime_nsec": 20 + q, "mtime_sec": 30 + q, "mtime_nsec": 40 + q}
+			f, err := w.rpc(c, "Tsetattr", wirecodec.Values{"fid": 3, "valid": bits, "attr": attr})
+			if err != nil || f.Name != "Rsetattr" {
+				o.Findings = append(o.Findings, fmt.Sprintf("%s: request failed (%v)", desc, f))
+				return
+			}
+			has := func(b string) bool {
+				for _, x := range bits {
+					if x == b {
+						return true
+					}
+				}
+				return false
+			}
+			wantMask := p9.SetAttrMask{Permissions: has("mode"), UID: has("uid"), GID: has("gid"), Size: has("size"), ATime: has("atime"), MTime: has("mtime"),
+				CTime: has("ctime"), ATimeNotSystemTime: has("atime_set"), MTimeNotSystemTime: has("mtime_set")}
+			wantAttr := p9.SetAttr{Permissions: p9.FileMode(q % 0o777), UID: p9.UID(1000 + q), GID: p9.GID(2000 + q), Size: 3 * q,
+				ATimeSeconds: 10 + q, ATimeNanoSeconds: 20 + q, MTimeSeconds: 30 + q, MTimeNanoSeconds: 40 + q}
+			nseen := 0
+			for _, cl := range w.take() {
+				if cl.K != "SetAttr" {
+					continue
+				}
+				nseen++
+				if got := cl.Args["valid"].(p9.SetAttrMask); got != wantMask {
+					o.Findings = append(o.Findings, fmt.Sprintf("%s: the backend was given the mask %+v, the frame carries %v", desc, got, bits))
+					return
+				}
+				if got := cl.Args["attr"].(p9.SetAttr); got != wantAttr {
+					o.Findings = append(o.Findings, fmt.Sprintf("%s: the backend was given %+v, the frame carries %+v", desc, got, wantAttr))
+					return
+				}
+			}
+			if nseen != 1 {
+				o.Findings = append(o.Findings, fmt.Sprintf("%s: %d SetAttr calls reached the backend", desc, nseen))
+				return
+			}
 		case "Tread":
 			// the reply's data must be what the backend produced for THIS request; a backend that
 			// returns n without writing exposes a buffer that was not cleared
